@@ -202,7 +202,7 @@ func Exec(c hx.Case) hx.Result {
 	return snap
 }
 
-const watchdog = 5 * time.Second
+const watchdog = 20 * time.Second
 
 func execCase(c hx.Case, res *hx.Result, mu *sync.Mutex) {
 	comp := hx.HeaderGet(c.Header, "comp")
